@@ -83,7 +83,7 @@ func p3Helpers(r *Run, rep *core.Report, rule string, mm *core.MapModel) {
 	why := ""
 	nTests := 0
 	for _, f := range r.P.Funcs {
-		if f.Pkg != r.P.Xsync {
+		if f.Pkg != r.P.Xsync || core.AtomicAccessor(f) {
 			continue
 		}
 		core.Instrs(f, func(in ssa.Instruction) {
@@ -95,7 +95,7 @@ func p3Helpers(r *Run, rep *core.Report, rule string, mm *core.MapModel) {
 			if !isAt || !mm.IsFlag(core.Addr(addr)) {
 				return
 			}
-			args := c.Common().Args
+			args := core.AtomicArgs(c)
 			switch op {
 			case "CAS":
 				if len(args) < 2 {
@@ -114,6 +114,10 @@ func p3Helpers(r *Run, rep *core.Report, rule string, mm *core.MapModel) {
 				}
 				ks = append(ks, kn.Value)
 			case "Store":
+				if len(args) == 0 {
+					okCAS, why = false, "the value stored into the resize flag at "+r.P.InstrPos(in)+" is not resolvable"
+					return
+				}
 				k, isK := core.StripConv(args[len(args)-1]).(*ssa.Const)
 				if !isK || k.Value == nil || constant.Sign(k.Value) != 0 {
 					okCAS, why = false, "the resize flag is stored with something other than 0 at "+r.P.InstrPos(in)
@@ -650,6 +654,7 @@ func p4Resize(r *Run, rep *core.Report, prop string, mm *core.MapModel) {
 		rep.Spec(name)
 		m := &core.Machine[rzOrd]{P: r.P, Fn: f, Spec: sp, Inline: helperInline(r)}
 		var publishes []ssa.Instruction
+		var publishVals []ssa.Value
 		m.Step = func(ctx *core.Ctx[rzOrd], s rzOrd, in ssa.Instruction) []rzOrd {
 			c, ok := in.(ssa.CallInstruction)
 			if !ok {
@@ -672,7 +677,8 @@ func p4Resize(r *Run, rep *core.Report, prop string, mm *core.MapModel) {
 					}
 					s.Published = true
 					// published value must be a fresh table of this activation
-					val := ctx.Resolve(core.StripConv(c.Common().Args[len(c.Common().Args)-1]))
+					val := ctx.Resolve(core.StripConv(core.AtomicLastArg(c)))
+					publishVals = append(publishVals, core.StripConv(val))
 					at := ssa.Instruction(in)
 					host := in.Parent()
 					if ctx.Frame != nil {
@@ -731,9 +737,7 @@ func p4Resize(r *Run, rep *core.Report, prop string, mm *core.MapModel) {
 				}
 			}
 			same := false
-			for _, p := range publishes {
-				pc := p.(ssa.CallInstruction)
-				val := core.StripConv(pc.Common().Args[len(pc.Common().Args)-1])
+			for _, val := range publishVals {
 				if dest != nil && val == core.StripConv(dest) {
 					same = true
 				}
@@ -840,21 +844,24 @@ func p4Resize(r *Run, rep *core.Report, prop string, mm *core.MapModel) {
 		if g == f || r.M.MapOfFunc(g) != mm && !isCtorOf(mm, g) {
 			continue
 		}
+		if core.AtomicAccessor(g) {
+			continue // judged at its call sites, where the call is read as the store it performs
+		}
 		core.Instrs(g, func(in ssa.Instruction) {
-			var addr ssa.Value
+			var addr, base ssa.Value
 			switch x := in.(type) {
 			case *ssa.Store:
-				addr = x.Addr
+				addr, base = x.Addr, x.Addr
 			case ssa.CallInstruction:
 				if op, a, ok := core.AtomicOp(x); ok && op != "Load" {
-					addr = a
+					addr, base = a, core.AtomicBase(x)
 				}
 			}
 			if addr == nil {
 				return
 			}
 			if a := core.Addr(addr); a.Owner == mm.Name && a.Field == mm.TableF {
-				fi := unpublishedAt(r, g, addr, in, 0)
+				fi := unpublishedAt(r, g, base, in, 0)
 				rep.Check(fi.OK, prop+".P4", fn(g)+" stores the table pointer", r.P.InstrPos(in), "initialising store into a map object that is not yet shared", "the table pointer is stored outside resize on a shared map object: "+fi.Why)
 			}
 		})
@@ -961,7 +968,7 @@ func p7Clear(r *Run, rep *core.Report, prop string, mm *core.MapModel) {
 		if c, ok := in.(ssa.CallInstruction); ok {
 			if op, addr, ok := core.AtomicOp(c); ok && op != "Load" {
 				if a := core.Addr(addr); a.Owner == mm.Name && a.Field == mm.TableF {
-					val := ctx.Resolve(core.StripConv(c.Common().Args[len(c.Common().Args)-1]))
+					val := ctx.Resolve(core.StripConv(core.AtomicLastArg(c)))
 					at := ssa.Instruction(in)
 					host := in.Parent()
 					if ctx.Frame != nil {
@@ -1124,7 +1131,7 @@ func p10RMW(r *Run, rep *core.Report, prop string, mm *core.MapModel) {
 				addr, val = x.Addr, x.Val
 			case ssa.CallInstruction:
 				if op, a, ok := core.AtomicOp(x); ok && op == "Store" {
-					addr, val = a, x.Common().Args[1]
+					addr, val = a, core.AtomicLastArg(x)
 				}
 			}
 			if addr == nil {
